@@ -22,7 +22,7 @@ RULE = ('A case is (module, optimize); the decoded journal is compared element-w
         '257 names, element/set/meta-variable ids 255 and 256, and more than 256 memory slots. distinct_nontrivial = distinct (gamma, claim) byte pairs with at least one '
         'axiom or two claims.')
 ASSUMPTIONS = ['a shared submodule reached through two import edges is declared twice (its axioms are expected once per edge)']
-FLOORS = {'quick': {'cases': 1500, 'journals_compared': 1400, 'modules_with_10_symbols': 30, 'oversize_refused': 4, 'exactly_256_ids_ok': 2, 'optimize_pairs_compared': 700,
+FLOORS = {'quick': {'cases': 1500, 'journals_compared': 1400, 'modules_with_10_symbols': 30, 'oversize_refused': 4, 'oversize_refused_by_main': 4, 'main_entry_point_runs': 12, 'exactly_256_ids_ok': 2, 'optimize_pairs_compared': 700,
                     'modules_with_imports': 200, 'modules_with_axiomless_middle_import': 50, 'modules_with_duplicate_axiom_attempt': 50}}
 FLOORS['thorough'] = dict(FLOORS['quick'], cases=30000, journals_compared=29000)
 
@@ -207,6 +207,37 @@ def shard(ctx):
             else:
                 ctx.count('exactly_256_ids_ok' if kind.endswith(('255', '256')) else 'edge_ok')
                 compare_journal(ctx, b, g, c, p, opt, kind)
+        # the same module through the command-line entry point every `python -m proof_generation.proofs.X` uses (ProofExp.main):
+        # an un-encodable module must make it fail (exception or non-zero SystemExit), an encodable one must leave the same files
+        import contextlib
+        import io as _io
+        for opt in (False, True):
+            b2, _ = edge_module(rng, kind)
+            out_dir = sc / f'main_{kind}_{int(opt)}'
+            if out_dir.exists():
+                import shutil
+                shutil.rmtree(out_dir)
+            argv = ['module', 'binary', str(out_dir), 'm'] + (['--optimize'] if opt else [])
+            ctx.count('main_entry_point_runs')
+            failed = None
+            try:
+                with contextlib.redirect_stdout(_io.StringIO()), contextlib.redirect_stderr(_io.StringIO()):
+                    b2.mod.main(argv)
+            except SystemExit as ex:
+                failed = None if ex.code in (0, None) else f'SystemExit({ex.code})'
+            except BaseException as ex:  # noqa: BLE001 - any failure is a refusal here
+                failed = type(ex).__name__
+            import gc
+            gc.collect()
+            if must_refuse and failed is None:
+                left = sorted(f.name for f in out_dir.iterdir()) if out_dir.exists() else []
+                ctx.violation('oversize_module_not_refused_by_main:' + kind.rstrip('0123456789'),
+                              f'ProofExp.main returned normally for a module needing an id above 255 ({kind})', {'kind': kind, 'optimize': opt, 'files_left': left})
+            elif not must_refuse and failed is not None:
+                ctx.violation('encodable_module_refused_by_main:' + kind.rstrip('0123456789'), f'ProofExp.main failed ({failed}) for a module within the limits ({kind})',
+                              {'kind': kind, 'optimize': opt})
+            elif must_refuse:
+                ctx.count('oversize_refused_by_main')
 
 
 def _dec(b):
